@@ -491,7 +491,7 @@ bool c04_metamorphic(const ref::Pos& rp, Tape& t, Report& rep)
 
 bool prop_C04(Tape& t, Report& rep)
 {
-    br::init_engine();
+    br::init_engine(false);
     int mode = t.weighted({4, 3, 2});
     if (mode == 0)
     {
